@@ -78,10 +78,19 @@ func (c *typeUnparenChecker) removeRedundantParens(e ast.Expr) ast.Expr {
 		e.Value = c.removeRedundantParens(e.Value)
 	case *ast.ChanType:
 		if valueWithParens, ok := e.Value.(*ast.ParenExpr); ok {
-			if nestedChan, ok := valueWithParens.X.(*ast.ChanType); ok {
+			// Only one level of parenthesis is needed: chan ((<-chan int)) => chan (<-chan int).
+			inner := valueWithParens.X
+			for {
+				p, ok := inner.(*ast.ParenExpr)
+				if !ok {
+					break
+				}
+				inner = p.X
+			}
+			if nestedChan, ok := inner.(*ast.ChanType); ok {
 				const anyDir = ast.SEND | ast.RECV
 				if nestedChan.Dir != anyDir || e.Dir != anyDir {
-					valueWithParens.X = c.removeRedundantParens(valueWithParens.X)
+					valueWithParens.X = c.removeRedundantParens(inner)
 					return e
 				}
 			}
